@@ -8,6 +8,8 @@ MODE = 'html'
 FR = gens.HTML_ALPHA + ['<a>', '</a>', '<b c="d>e">', '</b>', '<br>', '<i/>', '<img x=y>', '<!--', '-->', '<![CDATA[', ']]>', '<?', '?>', '<script>',
                         '</script>', '<script type="text/x">', '<style>', '</style>', '\\', '{', '}', '(', ')', '*x', '#y', ' e=f', "='g'", '<p ', 'é', 'x:y', '</br>', '</img>', '</hr>', '<script/>', '<style/>', '<script src="a.js"/>', '<style type="x"/>', '<br/>', '</script', '<input>']
 VOID = ['br', 'img', 'input', 'hr', 'meta', 'link']
+# the documented script types whose body is raw text (pinned copy of html_matcher.utils.default_special['script'])
+SCRIPT_TYPES = ['', 'text/javascript', 'application/x-javascript', 'javascript', 'typescript', 'ts', 'coffee', 'coffeescript']
 PAIRED = ['div', 'p', 'span', 'a', 'ul', 'li', 'b', 'x-y', 'ns:t', 'section', 'h1', 'em', 'table', 'A', 'Br']
 
 
@@ -59,8 +61,24 @@ def gen_doc(rnd, xml, budget=14):
             return rec
         if k < .12:
             name = rnd.choice(['script', 'style'])
-            rec = Rec(name); s = pos[0]; emit('<' + name); attrs(rec); emit('>'); rec.open = (s, pos[0])
-            emit(rnd.choice(['', 'var a = "<div>";', 'if (a < b && c > d) {}', '</scrip>', '<p>x</p>', 'a{b:c}']))
+            rec = Rec(name); s = pos[0]; emit('<' + name); attrs(rec)
+            raw = True
+            if name == 'script' and rnd.random() < .6:
+                # a `type` attribute: the documented script types (quoted or not) keep the body raw text; any other type makes the
+                # body ordinary markup
+                raw = rnd.random() < .7
+                tv = rnd.choice(SCRIPT_TYPES) if raw else rnd.choice(['text/x-template', 'text/html', 'x', 'application/javascript', 'module'])
+                emit(' '); ns = pos[0]; emit('type'); ne = pos[0]; emit('=')
+                q = rnd.choice(['"', "'", '']) if tv and '/' not in tv else rnd.choice(['"', "'"])
+                v = q + tv + q; vs = pos[0]; emit(v); ve = pos[0]
+                rec.attrs.append(('type', v, ns, ne, vs, ve))
+                if rnd.random() < .3: attrs(rec)
+            emit('>'); rec.open = (s, pos[0])
+            if raw: emit(rnd.choice(['', 'var a = "<div>";', 'if (a < b && c > d) {}', '</scrip>', '<p>x</p>', 'a{b:c}', 'for (i = 0; i <n; i++) { out += "<li>" + i; }', 'document.write("<em>")']))
+            else:
+                while budget_[0] > 0 and depth < 5 and rnd.random() < .5:
+                    junk(); budget_[0] -= 1; rec.kids.append(element(depth + 1))
+                junk()
             s = pos[0]; emit('</' + name + '>'); rec.close = (s, pos[0])
             return rec
         if k < .3:
@@ -248,6 +266,11 @@ def run(case, prop):
     from emmet.html_matcher.utils import default_special
     s = case['s']; viol = []; tags = {'gen:' + case['g']: 1}
     ev = []; evl = []
+    try:
+        # an editor action in XML mode earlier in the same process (legitimate use of a sibling module): the matcher's defaults stay
+        from emmet.action_utils import select_item_html
+        select_item_html('<feed><entry id="1"><title>t</title></entry></feed>', 0, False, {'xml': True})
+    except Exception: pass
     try:
         scan(s, lambda n, t, a, e: (ev.append('%s:%d:%d:%d' % (n, t, a, e)), evl.append((n, int(t), a, e)))[0], default_special)
     except RecursionError: raise
